@@ -19,6 +19,8 @@ def gen_grid(g):
 def draw_grid(rng):
     kind = rng.choice(["geom", "geom", "lin", "int"])
     n = rng.choice([8, 9, 10, 12, 15, 20, 30, 45, 60]) if rng.random() < 0.8 else rng.randint(8, 60)
+    if rng.random() < 0.06:
+        n = rng.randint(3, 7)                      # very coarse grids are legal too
     if kind == "int":
         return {"kind": "int", "n": n}
     lo = rng.choice([0.1, 0.2, 0.5, 1.0])
